@@ -41,7 +41,10 @@ def _case(draw, tier):
             "y0_grad": draw(st.sampled_from([True, True, False])),
             # frozen parameters (requires_grad=False): all of the drift's, all of the diffusion's, or a drawn subset - the
             # tensors entering a step then carry a graph in some places only
-            "frozen": draw(st.sampled_from([None, None, "drift", "diffusion", "subset"]))}
+            "frozen": draw(st.sampled_from([None, None, "drift", "diffusion", "subset"])),
+            # multiplicative noise started where it vanishes: g(t, y0) == 0 exactly while dg/dy != 0 (y0 = 0 and g replaced by
+            # g(t, y) - g(t, 0))
+            "g_zero_at_y0": draw(st.sampled_from([False, False, False, True]))}
 
 
 def strategy(tier):
@@ -65,7 +68,8 @@ def enumerate_cases(tier):
                                                           "tdtype": "float64"},
                    "adaptive": False, "outs": [0.5], "entropy": rnd.randrange(2 ** 31 - 2),
                    "wseed": rnd.randrange(2 ** 31), "tol": 1e-2, "y0_grad": y0_grad,
-                   "frozen": [None, "drift", "diffusion"][(idx + (0 if y0_grad else 1)) % 3]}
+                   "frozen": [None, "drift", "diffusion"][(idx + (0 if y0_grad else 1)) % 3],
+                   "g_zero_at_y0": combo["noise_type"] != "additive" and idx % 2 == 0 and y0_grad}
 
 
 def run_case(case):
@@ -101,6 +105,20 @@ def run_case(case):
     sig = {"method": combo["method"], "noise_type": spec["noise_type"], "sde_type": spec["sde_type"],
            "adaptive": case["adaptive"], "grad_free": bool(combo["options"])}
 
+    gz = bool(case.get("g_zero_at_y0")) and spec["noise_type"] != "additive"
+
+    class _GZero(torch.nn.Module):
+        def __init__(self, base):
+            super().__init__()
+            self.base = base
+            self.noise_type, self.sde_type, self.spec = base.noise_type, base.sde_type, base.spec
+
+        def f(self, t, y):
+            return self.base.f(t, y)
+
+        def g(self, t, y):
+            return self.base.g(t, y) - self.base.g(t, torch.zeros_like(y))
+
     def loss_at(shift, need_grad, replay=None, record=None):
         nonlocal w
         sde = sdes.build_generic(spec)
@@ -110,7 +128,10 @@ def run_case(case):
         for p, fz in zip(sde.parameters(), frozen):
             if fz:
                 p.requires_grad_(False)
-        y0 = (sdes.y0_for(spec) + shift * dir_y).requires_grad_(need_grad and y0_grad)
+        y0 = ((0.0 if gz else 1.0) * sdes.y0_for(spec) + shift * dir_y).requires_grad_(need_grad and y0_grad)
+        params = list(sde.parameters())
+        if gz:
+            sde = _GZero(sde)
         bm = sdes.make_bm(torchsde, spec, ts[0], ts[-1], case["entropy"], levy=combo["levy"])
         real = adaptive_stepping.compute_error
 
@@ -130,7 +151,7 @@ def run_case(case):
                 w = torch.randn(ys.shape, generator=gen, dtype=torch.float64)
             loss = (ys * w).sum()
         if need_grad:
-            live = [p for p, fz in zip(sde.parameters(), frozen) if not fz]
+            live = [p for p, fz in zip(params, frozen) if not fz]
             inputs = ([y0] if y0_grad else []) + live
             if not inputs or not loss.requires_grad:
                 return loss.detach(), (None,) * (1 + len(frozen))
@@ -164,7 +185,8 @@ def run_case(case):
     e = abs(an - fd) / max(abs(fd), floor, 1e-300)
     steps = (tm["t1"] - tm["t0"]) / tm["dt"]
     labels = [solve.combo_label(combo), "adaptive" if case["adaptive"] else "fixed",
-              "y0_requires_grad" if y0_grad else "y0_fixed"] + ([f"frozen={frozen_kind}"] if frozen_kind else [])
+              "y0_requires_grad" if y0_grad else "y0_fixed"] + ([f"frozen={frozen_kind}"] if frozen_kind else []) + \
+        (["g_vanishes_at_y0"] if gz else [])
     if case["adaptive"]:
         labels.append(f"trials={'>=10' if len(record) >= 10 else '<10'}")
     fail = None
